@@ -43,6 +43,14 @@ func genFastqLen(r *rand.Rand) int {
 
 func genFastqList(r *rand.Rand, maxn int) []*fastq.Fastq {
 	n := r.IntN(maxn + 1)
+	if r.IntN(80) == 0 { // many small records
+		n = 300 + r.IntN(3000)
+		recs := make([]*fastq.Fastq, n)
+		for i := range recs {
+			recs[i] = genFastqRecord(r, r.IntN(80))
+		}
+		return recs
+	}
 	var recs []*fastq.Fastq
 	for i := 0; i < n; i++ {
 		recs = append(recs, genFastqRecord(r, genFastqLen(r)))
@@ -52,6 +60,9 @@ func genFastqList(r *rand.Rand, maxn int) []*fastq.Fastq {
 
 func fastqListString(recs []*fastq.Fastq) string {
 	s := fmt.Sprintf("%d records:", len(recs))
+	if len(recs) > 40 {
+		return s + " (many small records)"
+	}
 	for _, r := range recs {
 		if len(r.Sequence) > 100 || len(r.Name) > 100 {
 			s += fmt.Sprintf(" {name=%.60q namelen=%d len=%d}", r.Name, len(r.Name), len(r.Sequence))
@@ -281,7 +292,17 @@ func c02Corrupt(c *Ctx) {
 			plus := []byte("+")
 			kind := r.IntN(5)
 			switch kind {
-			case 0: // leading '@' replaced
+			case 0: // leading '@' replaced, or deleted when the name does not itself begin with '@'
+				if r.IntN(3) == 0 && !bytes.HasPrefix(rec.Name, []byte("@")) {
+					text := line(rec.Name, rec.Sequence, plus, rec.Quals)
+					k.Input("kind", "leading '@' deleted")
+					k.Input("text", text)
+					fastqCorruptionCheck(k, "leading @ deleted", recs, i, text)
+					k.Count("corruptions", 1)
+					k.Count("at_deleted", 1)
+					k.Nontrivial(text)
+					break
+				}
 				var nb byte
 				for {
 					nb = byte(r.IntN(256))
